@@ -47,7 +47,9 @@ var anchorWords = func() map[string]bool {
 	out := map[string]bool{}
 	ents, _ := checkerSources.ReadDir(".")
 	lit := regexp.MustCompile("\"(?:[^\"\\\\\n]|\\\\.)*\"|`[^`]*`")
-	word := regexp.MustCompile(`[A-Za-z_][A-Za-z0-9_]*`)
+	single := regexp.MustCompile(`^[A-Za-z_][A-Za-z0-9_]*$`)
+	recvQual := regexp.MustCompile(`\)\.([A-Za-z_][A-Za-z0-9_]*)`)
+	pkgQual := regexp.MustCompile(`\b(?:ast|boltz|objectz|zitiql|boltztest)\.([A-Za-z_][A-Za-z0-9_]*)(?:\[[A-Za-z]*\])?(?:\.([A-Za-z_][A-Za-z0-9_]*))?`)
 	for _, e := range ents {
 		if e.Name() == "normalize.go" {
 			continue
@@ -57,8 +59,19 @@ var anchorWords = func() map[string]bool {
 			continue
 		}
 		for _, l := range lit.FindAll(b, -1) {
-			for _, w := range word.FindAll(l, -1) {
-				out[string(w)] = true
+			body := string(l[1 : len(l)-1])
+			if single.MatchString(body) {
+				out[body] = true // a name looked up by itself: p.Method("boltz", "T", "m"), cal.Name() == "m"
+			}
+			// names inside table keys and messages: (*pkg.T).m, pkg.T.m, pkg.f
+			for _, m := range recvQual.FindAllStringSubmatch(body, -1) {
+				out[m[1]] = true
+			}
+			for _, m := range pkgQual.FindAllStringSubmatch(body, -1) {
+				out[m[1]] = true
+				if m[2] != "" {
+					out[m[2]] = true
+				}
 			}
 		}
 	}
@@ -73,12 +86,13 @@ var (
 )
 
 type normStats struct {
-	Dead map[string]bool // helpers (types.Func.FullName) with no reference left after expansion
-	Expanded   int // call sites expanded
-	Funcs      int // functions whose body changed
-	Reverted   int // functions reverted after a type error
-	Helpers    map[string]int
-	SkippedWhy map[string]int
+	Dead         map[string]bool // helpers (types.Func.FullName) with no reference left after expansion
+	Expanded     int             // call sites expanded
+	MethodValues int             // locals bound to a method value rewritten to direct method calls
+	Funcs        int             // functions whose body changed
+	Reverted     int             // functions reverted after a type error
+	Helpers      map[string]int
+	SkippedWhy   map[string]int
 }
 
 type normalizer struct {
@@ -349,7 +363,7 @@ type hoistScan struct {
 	n      *normalizer
 	st     *inlState
 	target *ast.Expr // slot holding the first expandable call
-	stop   bool       // an effect was met: nothing later may be hoisted
+	stop   bool      // an effect was met: nothing later may be hoisted
 }
 
 func (h *hoistScan) done() bool { return h.stop || h.target != nil }
@@ -1014,6 +1028,7 @@ func (n *normalizer) expandMode(call *ast.CallExpr, st *inlState, tail bool) (pr
 		inner.tsubst[k] = v
 	}
 	cb := n.clone(fd.Body).(*ast.BlockStmt)
+	n.propagateMethodValues(cb)
 	okBody := true
 	n.substIdents(cb, subst, st, pos, &okBody)
 	if !okBody {
@@ -1644,12 +1659,14 @@ func normalizeOne(p *packages.Package, fset *token.FileSet, gen func(token.Pos) 
 				n.curFile = f
 				n.needImps = map[string]string{}
 				nb := n.clone(fd.Body).(*ast.BlockStmt)
+				beforeMV := stats.MethodValues
+				n.propagateMethodValues(nb)
 				st := &inlState{top: obj, sites: nil}
 				if obj != nil {
 					st.ret = obj.Type().(*types.Signature).Results()
 				}
 				n.block(nb, st)
-				if stats.Expanded == before {
+				if stats.Expanded == before && stats.MethodValues == beforeMV {
 					continue
 				}
 				nfd := *fd
@@ -1849,4 +1866,103 @@ func declName(n ast.Node) string {
 		return fd.Name.Name
 	}
 	return "decl"
+}
+
+// propagateMethodValues rewrites, inside one function body, a local that is bound once to a method
+// value of a pointer with a pointer-receiver method and is only ever called:
+//
+//	f := x.M ... f(a, b)      =>      __mv_f := x ... __mv_f.M(a, b)
+//
+// (binding such a method value evaluates x and nothing else — no copy, no dereference — so calling the
+// method on the saved pointer is the same computation).
+func (n *normalizer) propagateMethodValues(body *ast.BlockStmt) {
+	type cand struct {
+		as  *ast.AssignStmt
+		obj types.Object
+		sel *ast.SelectorExpr
+		ok  bool
+	}
+	cands := map[types.Object]*cand{}
+	ast.Inspect(body, func(x ast.Node) bool {
+		as, ok := x.(*ast.AssignStmt)
+		if !ok || as.Tok != token.DEFINE || len(as.Lhs) != 1 || len(as.Rhs) != 1 {
+			return true
+		}
+		id, ok := as.Lhs[0].(*ast.Ident)
+		if !ok || id.Name == "_" {
+			return true
+		}
+		sel, ok := ast.Unparen(as.Rhs[0]).(*ast.SelectorExpr)
+		if !ok {
+			return true
+		}
+		osel, _ := n.o(sel).(*ast.SelectorExpr)
+		s := n.info.Selections[osel]
+		if s == nil || s.Kind() != types.MethodVal || len(s.Index()) != 1 {
+			return true
+		}
+		if _, isPtr := s.Recv().(*types.Pointer); !isPtr {
+			return true
+		}
+		m, ok := s.Obj().(*types.Func)
+		if !ok {
+			return true
+		}
+		if _, recvPtr := m.Type().(*types.Signature).Recv().Type().(*types.Pointer); !recvPtr {
+			return true
+		}
+		oid, _ := n.o(id).(*ast.Ident)
+		obj := n.info.Defs[oid]
+		if obj == nil {
+			return true
+		}
+		cands[obj] = &cand{as: as, obj: obj, sel: sel, ok: true}
+		return true
+	})
+	if len(cands) == 0 {
+		return
+	}
+	// every other mention must be the callee of a call
+	callFun := map[*ast.Ident]*ast.CallExpr{}
+	ast.Inspect(body, func(x ast.Node) bool {
+		if call, ok := x.(*ast.CallExpr); ok {
+			if id, ok := call.Fun.(*ast.Ident); ok {
+				callFun[id] = call
+			}
+		}
+		return true
+	})
+	ast.Inspect(body, func(x ast.Node) bool {
+		id, ok := x.(*ast.Ident)
+		if !ok {
+			return true
+		}
+		oid, _ := n.o(id).(*ast.Ident)
+		if oid == nil {
+			return true
+		}
+		if ob := n.info.Uses[oid]; ob != nil {
+			if c := cands[ob]; c != nil && callFun[id] == nil {
+				c.ok = false
+			}
+		}
+		return true
+	})
+	for _, c := range cands {
+		if !c.ok {
+			continue
+		}
+		lhs := c.as.Lhs[0].(*ast.Ident)
+		tmp := "__mv_" + lhs.Name
+		method := c.sel.Sel.Name
+		c.as.Lhs[0] = ident(tmp, lhs.Pos())
+		c.as.Rhs[0] = c.sel.X
+		for id, call := range callFun {
+			oid, _ := n.o(id).(*ast.Ident)
+			if oid != nil && n.info.Uses[oid] == c.obj {
+				call.Fun = &ast.SelectorExpr{X: ident(tmp, id.Pos()), Sel: ident(method, id.Pos())}
+			}
+		}
+		n.stats.MethodValues++
+	}
 }
